@@ -316,6 +316,7 @@ class World(object):
                 payload = {'oc': res['oc'], 'diff': res['diff'], 'sim': self.sim_seconds,
                            'mon': {'fired': m.fired, 'fired_all': m.fired_all, 'diverged': m.diverged,
                                    'not_delivered': m.not_delivered, 'n': m.n,
+                                   'touched': m.touched, 'tv0': m.tv0,
                                    'events': m.events if keep_events else [],
                                    'mutations': m.mutations, 'other_mutations': m.other_mutations,
                                    'reads': m.reads}}
@@ -394,7 +395,15 @@ def window_start(m):
     return min((mu['at'] for mu in m.mutations), default=None)
 
 
-def plan_faults(events, r, l1, win, inv, tier, entry, agg=False, blocked=(), owin=(), still_open=frozenset()):
+def in_windows(i, wins, win):
+    """Is event i inside a perturbed stretch of the touched variables?"""
+    if wins:
+        return any(a <= i < b for a, b in wins)
+    return win is not None and i >= win
+
+
+def plan_faults(events, r, l1, win, inv, tier, entry, agg=False, blocked=(), owin=(), still_open=frozenset(),
+                wins=None):
     """Which (k, exception name) pairs to inject for one recorded invocation."""
     adm = [e for e in events[:r] if e['adm'] and not any(lo <= e['i'] < hi for lo, hi in blocked)]
     l1ev = [e for e in adm if e['ckey'] in l1]
@@ -439,8 +448,8 @@ def plan_faults(events, r, l1, win, inv, tier, entry, agg=False, blocked=(), owi
             plan.append((prio[s_]['i'], rr.choice(fam_a if n % 2 == 0 else fam_b), 'L2', 'entry'))
         # stratify by call site (caller, line, callee): every distinct site once
         # before any site twice; in-window sites first 4:1
-        inwin = [e for e in l2ev if win is not None and e['i'] >= win]
-        outwin = [e for e in l2ev if not (win is not None and e['i'] >= win)]
+        inwin = [e for e in l2ev if in_windows(e['i'], wins, win)]
+        outwin = [e for e in l2ev if not in_windows(e['i'], wins, win)]
         chosen = []
         for pool, share in ((inwin, 0.8), (outwin, 0.2)):
             want = int(round(nl2*share))
@@ -480,11 +489,11 @@ def plan_faults(events, r, l1, win, inv, tier, entry, agg=False, blocked=(), owi
     return plan, len(l1ev), len(l2ev)
 
 
-def resolve_selector(sel, events, r, l1, win):
+def resolve_selector(sel, events, r, l1, win, blocked=()):
     """Turn a pre-drawn fault selector into (k, exc) using the recording, or None."""
     if sel is None:
         return None
-    adm = [e for e in events[:r] if e['adm']]
+    adm = [e for e in events[:r] if e['adm'] and not any(lo <= e['i'] < hi for lo, hi in blocked)]
     pool = [e for e in adm if (e['ckey'] in l1) == (sel['scope'] == 'L1')]
     if sel.get('window') and win is not None:
         pw = [e for e in pool if e['i'] >= win]
